@@ -400,6 +400,10 @@ func preemptScenariosFor(prop string) []scn {
 		v1(flowParams{Sources: 1, Records: 1, Batch: 1, Dests: 1, AckMenu: []string{"ok", "err"}, Ctl: []string{"stopwait", "start", "stopwait"}, Retries: 1}, 1, 2)
 		// the funnel engine stops the workers of a two-source pipeline concurrently and joins them
 		v2(flowParams{Sources: 2, Records: 1, Batch: 1, Dests: 1, AckMenu: onlyOK, Ctl: []string{"stopwait", "start", "stopwait"}, MaxOcc: 2}, 0, 1)
+		// a run that fails at once - while the goroutine that called Start is still between two of Start's own statements -
+		// and a wait for it afterwards: the wait reports that failure
+		v1(flowParams{Sources: 1, Records: 1, Batch: 1, Dests: 1, AckMenu: onlyOK, ReadMenu: []string{"ok", "fatal"}, Ctl: []string{"wait"}, MaxOcc: 1}, 1, 2)
+		v2(flowParams{Sources: 1, Records: 1, Batch: 1, Dests: 1, AckMenu: onlyOK, ReadMenu: []string{"ok", "fatal"}, Ctl: []string{"wait"}, MaxOcc: 1}, 1, 2)
 	case "C10":
 		// the node goroutines of a failing run racing with the run's cleanup goroutine
 		v1(flowParams{Sources: 1, Records: 2, Batch: 1, Dests: 1, AckMenu: []string{"ok", "err"}, ReadMenu: []string{"ok", "err", "fatal"}, Retries: 1, SiteWide: true}, 1, 2)
